@@ -321,5 +321,6 @@ def run(ctx):
 
     # node and lane names are read back by the Recon tokenizer's unescape: it must undo exactly what escape_text did (C09.R2)
     from rules import C09 as _C09
-    ctx.borrow(_C09, {"C09.R2": ("C11.R9", "the reader unescapes node and lane names exactly as the writer escaped them (escape tables inverse, \\uXXXX of four digits; C09.R2)")})
+    ctx.borrow(_C09, {"C09.R2": ("C11.R9", "the reader unescapes node and lane names exactly as the writer escaped them (escape tables inverse, \\uXXXX of four digits; C09.R2)"),
+                      "C09.R11": ("C11.R10", "no envelope header makes the reader panic: finish() is applied only where the parser cannot have answered Incomplete (C09.R11)")})
 
